@@ -170,7 +170,7 @@ PROPS = {
             "isolation": "NewHandler + each of the 15 field handlers alone, all 15 together, and none; three requests (A, B, A) with distinct attribute values (two of them with a symbolic byte) through the same handler chain: every request gets its own logger, each event carries only its own request's values, serving never writes into the base logger's context buffer (engine write-set), the base logger still emits only its own context",
             "outside": "goroutine-level interleaving inside handlers (nothing shared is written: ownership argument); net/http internals (Header.Get/Set = exact-key map access, URL.String = the URL's path, xid = opaque id, time.Now/Since stubbed)",
         },
-        "assumptions": COMMON_ASSUME + ["net/http: only HandlerFunc.ServeHTTP, Request.Context and Request.WithContext are executed from their real SSA; Header.Get/Set, url.URL.String, xid.New/ID.String are stubs", "context.WithValue/Value executed from real SSA"],
+        "assumptions": COMMON_ASSUME + ["net/http: only HandlerFunc.ServeHTTP, Request.Context and Request.WithContext are executed from their real SSA; Header.Get/Set, xid.New/ID.String are stubs; net/url (URL.String, RequestURI, escaping) is executed from its real SSA", "context.WithValue/Value executed from real SSA"],
     },
     "C19": {
         "groups": [{"name": "user", "tags": "verif", "run": "^VH_C19_", "flags": {"witnesses": 400}}],
